@@ -183,6 +183,59 @@ theorem konst_enumerate_rev_doc (pre post : List Ad) (cons : Cons) (src : List V
   simp only [fwd, stdEval, applyAd, Bool.not_true]
   rw [fwd_false_std post hp]
 
+/-- F7 in closed form, `take`: a `take(k)` right before the `rev()` takes from the REVERSED stream — konst
+    computes what std computes for `rev().take(k)` (std's `take(k).rev()` would keep the first `k`) -/
+theorem konst_take_rev_char (pre post : List Ad) (k : Nat) (cons : Cons) (src : List Val)
+    (hc : Commuting pre) (hp : NoRev post) (hk : cons.isRev = false) :
+    konstEval (pre ++ .take k :: .rev :: post) cons src
+      = stdResult (pre ++ .rev :: .take k :: post) cons src := by
+  rw [konst_eq_std_normalised]
+  have hr : hasRev (pre ++ .take k :: .rev :: post) = true := by
+    have := hasRev_append_rev (pre ++ [.take k]) post
+    simpa using this
+  rw [hr]
+  simp only [Bool.true_or, walk, if_true]
+  rw [commuting_prefix pre hc, iterConsume_nonrev cons hk]
+  unfold stdResult
+  rw [stdEval_append]
+  simp only [fwd, stdEval, applyAd, Bool.not_true]
+  rw [fwd_false_std post hp]
+
+/-- F7 in closed form, `skip` -/
+theorem konst_skip_rev_char (pre post : List Ad) (k : Nat) (cons : Cons) (src : List Val)
+    (hc : Commuting pre) (hp : NoRev post) (hk : cons.isRev = false) :
+    konstEval (pre ++ .skip k :: .rev :: post) cons src
+      = stdResult (pre ++ .rev :: .skip k :: post) cons src := by
+  rw [konst_eq_std_normalised]
+  have hr : hasRev (pre ++ .skip k :: .rev :: post) = true := by
+    have := hasRev_append_rev (pre ++ [.skip k]) post
+    simpa using this
+  rw [hr]
+  simp only [Bool.true_or, walk, if_true]
+  rw [commuting_prefix pre hc, iterConsume_nonrev cons hk]
+  unfold stdResult
+  rw [stdEval_append]
+  simp only [fwd, stdEval, applyAd, Bool.not_true]
+  rw [fwd_false_std post hp]
+
+/-- F7 in closed form, `zip`: the zipped iterator is walked from ITS back as well, pairing last with
+    last without trimming the longer side — std's `rev().zip(other.rev())` -/
+theorem konst_zip_rev_char (pre post : List Ad) (other : List Val) (cons : Cons) (src : List Val)
+    (hc : Commuting pre) (hp : NoRev post) (hk : cons.isRev = false) :
+    konstEval (pre ++ .zip other :: .rev :: post) cons src
+      = stdResult (pre ++ .rev :: .zip other.reverse :: post) cons src := by
+  rw [konst_eq_std_normalised]
+  have hr : hasRev (pre ++ .zip other :: .rev :: post) = true := by
+    have := hasRev_append_rev (pre ++ [.zip other]) post
+    simpa using this
+  rw [hr]
+  simp only [Bool.true_or, walk, if_true]
+  rw [commuting_prefix pre hc, iterConsume_nonrev cons hk]
+  unfold stdResult
+  rw [stdEval_append]
+  simp only [fwd, stdEval, applyAd, Bool.not_true, walk, if_true]
+  rw [fwd_false_std post hp]
+
 /-- `collect_const!`: both const-evaluation passes run the same loop, so the `length == CAP` assert
     before `array_assume_init` never fires, and the array is exactly the items of the chain -/
 theorem collectConst_eq (c : List Ad) (src : List Val) :
